@@ -21,6 +21,10 @@ pub struct Ann {
     port: u16,
     /// Change the address after signing.
     altered: bool,
+    /// The entry carries the signature of another entry of the same batch (index) instead of its own: two entries
+    /// that exchange their signatures keep the sum of all signatures of the batch unchanged.
+    #[serde(default)]
+    sig_of: Option<usize>,
 }
 
 #[derive(Debug, Clone, Serialize, Deserialize, Hash)]
@@ -64,6 +68,46 @@ fn authentic(a: &Ann) -> bool {
     a.key == a.signed_by && !a.altered
 }
 
+/// Same content (everything but the signature source).
+fn same_content(a: &Ann, b: &Ann) -> bool {
+    (a.key, a.signed_by, a.version, a.ts, a.port, a.altered) == (b.key, b.signed_by, b.version, b.ts, b.port, b.altered)
+}
+
+/// Authenticity of entry `i` of a batch: signed by its own key, not altered, and carrying its own signature.
+fn authentic_at(batch: &[Ann], i: usize) -> bool {
+    let a = &batch[i];
+    let foreign_sig = matches!(a.sig_of, Some(j) if j != i && j < batch.len() && !same_content(a, &batch[j]));
+    authentic(a) && !foreign_sig
+}
+
+/// Applies the signature exchanges of a batch to its built entries.
+fn with_foreign_sigs(batch: &[Ann], data: Vec<Arc<validator::Signed<validator::NetAddress>>>) -> Vec<Arc<validator::Signed<validator::NetAddress>>> {
+    let orig = data.clone();
+    let mut data = data;
+    for (i, a) in batch.iter().enumerate() {
+        if let Some(j) = a.sig_of {
+            if j != i && j < batch.len() {
+                let mut s = (*orig[i]).clone();
+                s.sig = orig[j].sig.clone();
+                data[i] = Arc::new(s);
+            }
+        }
+    }
+    data
+}
+
+/// One or two entries of a batch take the signature of another entry (an exchange keeps the sum unchanged).
+fn gen_sig_swaps(ch: &mut Choices, b: &mut [Ann]) {
+    if b.len() >= 2 && ch.chance(1, 6) {
+        let i = ch.below(b.len());
+        let j = (i + 1 + ch.below(b.len() - 1)) % b.len();
+        b[i].sig_of = Some(j);
+        if ch.chance(2, 3) {
+            b[j].sig_of = Some(i);
+        }
+    }
+}
+
 fn newer(a: &Ann, b: &Ann) -> bool {
     let ts = timestamps();
     (a.version, ts[a.ts % ts.len()]) > (b.version, ts[b.ts % ts.len()])
@@ -79,6 +123,7 @@ fn gen_ann(ch: &mut Choices, n: usize) -> Ann {
         ts: ch.below(7),
         port: 1000 + ch.below(5) as u16,
         altered: ch.chance(1, 10),
+        sig_of: None,
     }
 }
 
@@ -103,9 +148,10 @@ pub fn gen_case(ch: &mut Choices) -> Case {
                 }
                 _ => gen_ann(ch, n),
             };
-            all.push(a.clone());
-            b.push(a);
+            all.push(Ann { sig_of: None, ..a.clone() });
+            b.push(Ann { sig_of: None, ..a });
         }
+        gen_sig_swaps(ch, &mut b);
         batches.push(b);
     }
     Case { n, batches }
@@ -115,7 +161,7 @@ pub fn gen_case(ch: &mut Choices) -> Case {
 fn model_update(book: &mut BTreeMap<usize, Ann>, n: usize, batch: &[Ann]) -> Result<(), &'static str> {
     let mut next = book.clone();
     let mut seen = std::collections::BTreeSet::new();
-    for a in batch {
+    for (i, a) in batch.iter().enumerate() {
         if !seen.insert(a.key) {
             return Err("duplicate key");
         }
@@ -127,7 +173,7 @@ fn model_update(book: &mut BTreeMap<usize, Ann>, n: usize, batch: &[Ann]) -> Res
                 continue;
             }
         }
-        if !authentic(a) {
+        if !authentic_at(batch, i) {
             return Err("forged entry that would have been stored");
         }
         next.insert(a.key, a.clone());
@@ -149,7 +195,7 @@ pub fn check(case: &Case, st: &mut Stats) -> Result<(), String> {
         let mut rejected_with_valid_prefix = false;
         let mut tie = false;
         for (bi, batch) in case.batches.iter().enumerate() {
-            let data: Vec<_> = batch.iter().map(build).collect();
+            let data: Vec<_> = with_foreign_sigs(batch, batch.iter().map(build).collect());
             let before = snapshot(&book);
             let model_before = model.clone();
             let got = book.update(&c.schedule, &data).await;
@@ -239,7 +285,7 @@ pub fn gen_conv(ch: &mut Choices) -> ConvCase {
     let mut anns: Vec<Ann> = vec![];
     for _ in 0..k {
         let key = ch.below(n + 1); // includes one outsider
-        let a = Ann { key, signed_by: key, version: ch.pick(&[0u64, 1, 2, u64::MAX]), ts: ch.below(7), port: 2000 + anns.len() as u16, altered: false };
+        let a = Ann { key, signed_by: key, version: ch.pick(&[0u64, 1, 2, u64::MAX]), ts: ch.below(7), port: 2000 + anns.len() as u16, altered: false, sig_of: None };
         let ts = timestamps();
         if anns.iter().any(|b| b.key == a.key && (b.version, ts[b.ts]) == (a.version, ts[a.ts])) {
             continue;
@@ -328,9 +374,9 @@ pub fn check_race(case: &RaceCase, st: &mut Stats) -> Result<(), String> {
     let mut verdict = Ok(());
     for rep in 0..case.reps.max(1) {
         let book = Arc::new(AddrBook::default());
-        let mut batch = vec![build(&Ann { key: 0, signed_by: 0, version: case.pushed_version, ts: 2, port: 7000, altered: false })];
+        let mut batch = vec![build(&Ann { key: 0, signed_by: 0, version: case.pushed_version, ts: 2, port: 7000, altered: false, sig_of: None })];
         for k in 0..case.others {
-            batch.push(build(&Ann { key: 1 + k as usize, signed_by: 1 + k as usize, version: 3, ts: 2, port: 7001 + k as u16, altered: false }));
+            batch.push(build(&Ann { key: 1 + k as usize, signed_by: 1 + k as usize, version: 3, ts: 2, port: 7001 + k as u16, altered: false, sig_of: None }));
         }
         let r: Result<(), String> = rt.block_on(async {
             let start = Arc::new(tokio::sync::Barrier::new(2));
@@ -476,8 +522,8 @@ pub fn check_live(case: &Case, st: &mut Stats) -> Result<(), String> {
                 }
                 let before = book();
                 let mut req = vec![];
-                for a in batch {
-                    req.extend(crate::c19::pb_len(1, &zksync_protobuf::encode(&*build_with(keys, a))));
+                for e in with_foreign_sigs(batch, batch.iter().map(|a| build_with(keys, a)).collect()) {
+                    req.extend(crate::c19::pb_len(1, &zksync_protobuf::encode(&*e)));
                 }
                 let mut call = match tokio::time::timeout(std::time::Duration::from_secs(10), conn.as_ref().unwrap().open(ctx)).await {
                     Ok(Ok(c)) => c,
@@ -566,6 +612,7 @@ pub fn gen_dial(ch: &mut Choices) -> DialCase {
                 ts: ch.below(7),
                 port: 1000 + ch.below(LISTENERS - 1) as u16,
                 altered: ch.chance(1, 12),
+                sig_of: None,
             };
             if ch.chance(1, 10) && !all.is_empty() {
                 a = ch.pick(&all); // stale replay
@@ -574,9 +621,11 @@ pub fn gen_dial(ch: &mut Choices) -> DialCase {
                 a.key = ch.pick(&b).key; // duplicated key inside the batch
                 a.signed_by = a.key;
             }
+            a.sig_of = None;
             all.push(a.clone());
             b.push(a);
         }
+        gen_sig_swaps(ch, &mut b);
         batches.push(b);
     }
     let responders = (0..12).map(|_| ch.below(6) as u8).collect();
@@ -707,8 +756,8 @@ pub fn check_dial(case: &DialCase, st: &mut Stats) -> Result<(), String> {
                     conn = Some(q);
                 }
                 let mut req = vec![];
-                for a in batch {
-                    req.extend(crate::c19::pb_len(1, &zksync_protobuf::encode(&*build_dial(keys, addrs, a))));
+                for e in with_foreign_sigs(batch, batch.iter().map(|a| build_dial(keys, addrs, a)).collect()) {
+                    req.extend(crate::c19::pb_len(1, &zksync_protobuf::encode(&*e)));
                 }
                 let mut call = match tokio::time::timeout(std::time::Duration::from_secs(10), conn.as_ref().unwrap().open(ctx)).await {
                     Ok(Ok(c)) => c,
